@@ -26,6 +26,10 @@ func (r *verifRng) intn(n int) int {
 }
 
 func verifRandScalar(r *verifRng, nulls bool) JsonNode {
+	if r.intn(6) == 0 {
+		// numbers that differ only in sign, or only slightly
+		return []JsonNode{jsonNumber(-1), jsonNumber(-2), jsonNumber(0.5), jsonNumber(-0.5), jsonNumber(1700000000), jsonNumber(1700000001), jsonNumber(0)}[r.intn(7)]
+	}
 	switch r.intn(9) {
 	case 0, 1:
 		return jsonNumber(1)
@@ -178,6 +182,9 @@ func verifRandTriple(k int, nulls bool) (JsonNode, JsonNode, JsonNode) {
 		l := make(jsonArray, n)
 		for i := range l {
 			l[i] = jsonNumber(1 + r.intn(3))
+			if k%8 == 4 && r.intn(3) == 0 {
+				l[i] = jsonNumber(-1 - r.intn(2))
+			}
 		}
 		a = l
 	} else {
@@ -438,3 +445,7 @@ func verifScale(a, b JsonNode) string {
 
 // verifScaleCLI (C14): verifCLICheck on a large pair (files, stdin, -o, -p).
 func verifScaleCLI(a, b JsonNode, fi int) string { return verifCLICheck(a, b, fi) }
+
+// verifListOfObjects (C06, C07): the list-mode statements over arrays whose members are objects and
+// arrays that differ by a permutation of values, by sign, or slightly.
+func verifListOfObjects(a, b JsonNode) string { return verifRandHunks(a, b) }
